@@ -380,6 +380,20 @@ func c06Direction(r *Run, typ, wantCtor, otherCtor, payloadField string) {
 				if f, ok := recvField(st.Addr, recv); ok && f == payloadField {
 					stored = true
 				}
+				// kept in a local first: `p := newX(op); recv.F = p`
+				if al, isLocal := st.Addr.(*ssa.Alloc); isLocal && al.Referrers() != nil {
+					for _, r2 := range *al.Referrers() {
+						if ld, ok := r2.(*ssa.UnOp); ok && ld.Op == token.MUL && ld.Referrers() != nil {
+							for _, r3 := range *ld.Referrers() {
+								if st2, ok := r3.(*ssa.Store); ok && st2.Val == ssa.Value(ld) {
+									if f, ok := recvField(st2.Addr, recv); ok && f == payloadField {
+										stored = true
+									}
+								}
+							}
+						}
+					}
+				}
 			}
 		}
 		if !stored {
